@@ -15,7 +15,8 @@ LEVEL_TEXT["C13"] = (
     "Measured only: rounding (long-double time-domain power vs. the returned sum, a-priori bound (nseg + winlen + 16 log2 nfft + 16) eps), the real "
     "bin-centred sinusoid (A^2/2 up to the negative-frequency image 2r + r^2, r = |S(2k0)|/S(0) computed from the window), off-bin tones "
     "(the label of the maximum is the nearest listed frequency whenever the exact estimator -- independent long-double evaluation -- has its unique "
-    "maximum at the nearest bin), [0,1] and = 1 in Float."
+    "maximum at the nearest bin), [0,1] and = 1 in Float; welch and mscohere bin by bin against the long-double evaluation of their definitions (signals with silent stretches, "
+    "spectra spanning > 300 dB, scale classes), with tolerances derived from the conditioning of each bin."
 )
 
 PROPS["C13"] = {
@@ -34,7 +35,23 @@ PROPS["C13"] = {
             "overloads: 16 (60) window lengths, every default overload against the explicit call bit for bit; mscohere: nfft x family x {independent, scaled copy (c = +-2^k or 1e-3..1e3), "
             "FIR-filtered copy, noisy copy, coloured pair} x sampled overlaps, every overlap for winlen 2..8 (16), 3 (10) pairs of 10^5 samples; guard classes: 40 boundary tuples "
             "(nfft not a power of two / <= 0, noverlap >= winlen, negative noverlap, signal shorter than the window, segment-count boundaries, window longer than nfft, nfft 1/2/4/8192, "
-            "all-zero window, size mismatch). distinct = distinct protocol lines + oracle evaluations; non-trivial = all",
+            "all-zero window, size mismatch). "
+            "Round 2 (value-pattern classes; every welch call is also judged on sum(pxx) = nfft mean_seg(sum |x w|^2) / (sum w)^2 in power scaling): "
+            "SILENT STRETCHES: 11 patterns (one / first / last segment, a range of segments, all but one window length, zero-padded tail, leading silence, gated bursts, "
+            "a single non-zero sample, near misses one sample off the grid / one sample short, the whole record) x 9 quiet values (+0, -0, mixed zeros, denormals, 1e-310, 1e-170, 1e-120, "
+            "1e-17, 1e-8) over every overlap of every window length at nfft 8/16/32 and over nfft x family x 2 (4) window lengths x sampled overlaps, real and complex, both scalings: "
+            "sums over ALL segments, every bin against the long-double definition (1e-11 of the maximum), rectangular no-overlap records against the mean square of the whole record; "
+            "COHERENCE AGAINST ITS DEFINITION (long double, per-bin tolerance from the conditioning of the bin, bins more than ~245 dB below the segment energy counted only): 7 kinds of x "
+            "spanning up to > 450 dB in Pxx Pyy (tone / bin-centred tones + dither 1e-3..1e-15, decaying multisine, cascaded one-pole noise, 16-bit quantised tone, impulses + dither, white) x 7 partners "
+            "(copy times +-2^k: 1 at EVERY bin whatever its level; scaled copy; (1 +- z)^p FIR copy; IIR copy; independent; copy + noise 1e-2..1e-12; delayed copy) x low-sidelobe windows "
+            "(blackmanharris, kaiser 12..40, gauss 4..8) and ordinary ones x 1..32 segments (one segment: 1 at every bin), 11 x 11 scale pairs 1e-150..1e150 applied to x and y separately "
+            "(pairs whose squares leave the double range: CORR only), exactly zero spectra (x = 0, y = 0, both, alternating +-1) and silent stretches in either signal (NaN or [0,1], pinned by CORR); "
+            "welch of the same dynamic-range signals judged per bin relative to the bin; SCALE CLASSES of signal and window 1e-300..1e150 (14 x 14, power-of-two scales bit for bit, out-of-range "
+            "pairs CORR only, |x| ~ 1e150 with finite squares); HISTORIES: up to 15 rejected calls (bad nfft, noverlap >= winlen, short signal, size mismatch; real / complex / mscohere) each followed by "
+            "the three valid calls, bit for bit; ALIASING and TEMPORARIES: mscohere(x, x), welch(x, x), mscohere(x, y, x), x = welch(x).pxx, r = welch(r.pxx), rvalue operands, const& and range-for over "
+            "results of temporaries; LONG RECORDS after the short ones: 4 (14) lengths 2^16..393216 incl. k 49152, k 65536, 2^17 +- 1, primes, welch and mscohere against the definition; "
+            "PRIME LENGTHS > 46340 for signal, window and hop, nfft 8192..2^17. "
+            "distinct = distinct protocol lines + oracle evaluations; non-trivial = all",
     "technique": "Lean 4 proof over a hand-written scalar-generic model (run at Float by the driver on top of C01's FFT model, reasoned about at R with the DFT as "
                  "explicit hypothesis; Parseval, conjugate symmetry and Cauchy-Schwarz proved in Lib/C13Dft) + differential correspondence on the real library + "
                  "long-double oracle (time-domain power, independent radix-2 long-double estimator for the tone clauses)",
